@@ -918,6 +918,44 @@ def stream_loop(ctx: Ctx) -> Stream:
 		ok_it, ok_tok = stub_item(None)
 		add('render-fails', [it, ok_it], [tok, ok_tok])
 	add('interrupt', [stub_item(None)[0], ('interrupt',), stub_item(None)[0]], ['code|ok|ok', 'interrupt', 'code|ok|ok'])
+	# one turn with a scripted `modules` (Interactive.modules is a public attribute): unload / load / transpile stages raise on request
+	class StubModules:
+		def __init__(self) -> None:
+			self.on_unload: BaseException | None = None
+			self.on_load: BaseException | None = None
+
+		def unload(self, module_path: str) -> None:
+			if self.on_unload is not None:
+				raise self.on_unload
+
+		def load(self, module_path: str, language: str = 'py') -> Any:
+			if self.on_load is not None:
+				raise self.on_load
+
+			class _M:
+				entrypoint = None
+			return _M()
+
+	real_modules = rig.inter.modules
+	sm = StubModules()
+	rig.inter.modules = sm
+	try:
+		for cls in classes:
+			exc = make_exception(cls, 'other', None) or make_exception(cls, 'none', None)
+			if exc is None:
+				continue
+			for stage in ('unload', 'load', 'transpile'):
+				sm.on_unload = exc if stage == 'unload' else None
+				sm.on_load = exc if stage == 'load' else None
+				item = ('stub', exc if stage == 'transpile' else None)
+				real = run_script([item]).split(' ')
+				real_status = ' '.join(real[:-1])
+				toks = ['ok', 'ok', 'ok']
+				toks[('unload', 'load', 'transpile').index(stage)] = exc_spec(exc)
+				cases.append(({'kind': f'turn-{stage}'}, ['\t'.join(['turn', *toks, render_of(exc)])], [real_status]))
+	finally:
+		sm.on_unload = sm.on_load = None
+		rig.inter.modules = real_modules
 	# real sources through the real pipeline: the model input is the outcome observed on a separate run of the same pipeline
 	probe = pl.Pipeline('in-memory', ctx.tmpdir())
 	real_sources = ['a: int = 1', 'def f(x: int) -> int:\n\treturn x', 'x = y', 'a = = 1', 'def f(:', 'a = $', 'if a:\n        x = 1\n    y = 2',
@@ -1822,6 +1860,14 @@ STATEMENTS = {
 	'main_reports': 'batch mode: the first failing target ends Runner._run_impl; every Exception is printed by __main__ through ErrorRender (process ends normally if the render succeeds); non-Exceptions and render failures leave the process',
 	'render_stacktrace_total': '__build_stacktrace is total when format_exception returned ≥ 2 entries, each containing a line feed (frames outside tranp, missing/undecodable source lines only change the text)',
 	'render_total_all': 'render() is defined iff stack trace, quotation and message are',
+	'tables_are_audit_projections': 'the ten except tables the model interprets equal the clauses the generated audit lists for those functions (one source of truth)',
+	'audit_no_hidden_swallow': 'over ALL except clauses of rogw/tranp on the audited paths: a clause that does not re-raise catches members of the Errors.Error hierarchy only, or is one of four named sinks (prompt KeyboardInterrupt, __main__ report, renderer repr fallback, writer retry)',
+	'audit_dynamic_clause_unique': 'the only clause with a dynamic class list is lang/error.py raises(), unused on the audited paths (translator check)',
+	'normalising_sites_convert_all': 'Procedure.__emit and Modules.load convert EVERY Exception class (any class, CtorOk) into the hierarchy, both parser branches into Errors.Syntax — from the generated tables via the decidable criterion coversException',
+	'ctorOk_named / proc_named': 'the constructor hypothesis of proc holds for every named class; proc without it for handlers raising named classes',
+	'loop_handles_all_errors': 'every member of the generated Errors hierarchy with every argument shape is printed and the loop continues',
+	'turn_survives': 'a turn (unload ok, load and transpile ok or in the hierarchy) returns to the prompt',
+	'turn_unload_unprotected': 'the unload stage of rebuild_module runs outside Modules.load: a non-hierarchy Exception raised there ends the loop (hazard; not reachable by input on HEAD)',
 	'loop': 'an Interactive step returns to the prompt for every outcome in {ok} ∪ Errors.Error (any subclass) when printing the error succeeds',
 	'loop_history': 'every history of such steps is consumed completely and the loop is still running',
 	'loop_dies': 'any other Exception ends Interactive.run (what the raw parser exception does on the pinned tree)',
